@@ -392,6 +392,9 @@ theorem expand_spec (cmp : Nat → Nat → Int) (grow : Nat → Nat) (q : PQueue
   · right; simp [hmax]
   · simp only [hmax, if_false]
     have hnc := newCapacity_gt grow q hg h5 hmax
+    by_cases hbytes : newCapacity grow q > Gen.CC_MAX_ELEMENTS / ptrSize
+    · right; simp [hbytes]
+    simp only [hbytes, if_false]
     cases ha : m.alloc.1
     · right
       have := Mem.alloc_fst_false m ha
@@ -429,7 +432,23 @@ theorem expand_size (grow : Nat → Nat) (q : PQueue) (m : Mem) : (expandCapacit
   unfold expandCapacity; dsimp only
   split
   · rfl
-  · split <;> rfl
+  · split
+    · rfl
+    · split <;> rfl
+
+/-- a successful growth yields a capacity whose byte size `capacity * sizeof(void*)` does not wrap -/
+theorem expand_ok_bytes (grow : Nat → Nat) (q : PQueue) (m : Mem) (h : (expandCapacity grow q m).1 = .ok) :
+    (expandCapacity grow q m).2.1.capacity * ptrSize < 2 ^ 64 := by
+  unfold expandCapacity at h ⊢; dsimp only at h ⊢
+  by_cases h1 : q.capacity = Gen.CC_MAX_ELEMENTS
+  · simp [h1] at h
+  · by_cases h2 : newCapacity grow q > Gen.CC_MAX_ELEMENTS / ptrSize
+    · simp [h1, h2] at h
+    · cases ha : m.alloc.1
+      · simp [h1, h2, ha] at h
+      · simp only [h1, h2, ha, if_false, Bool.not_true, Bool.false_eq_true]
+        simp only [Gen.CC_MAX_ELEMENTS, ptrSize] at h2 ⊢
+        omega
 
 /-- the part of `cc_pqueue_push` after the capacity test: store at `size`, sift up -/
 def storeSift (cmp : Nat → Nat → Int) (q : PQueue) (x : Nat) (m : Mem) : Stat × PQueue × Mem :=
@@ -626,8 +645,10 @@ theorem new_spec (cmp : Nat → Nat → Int) (cap : Nat) (exGe : Nat → Bool) (
   unfold new
   by_cases hbad : (cap = 0 || exGe (Gen.CC_MAX_ELEMENTS / cap)) = true
   · left; simp [hbad]
-  · right
-    simp only [hbad]
+  · by_cases hbytes : cap > Gen.CC_MAX_ELEMENTS / ptrSize
+    · left; simp [hbad, hbytes]
+    right
+    simp only [hbad, hbytes, if_false]
     simp only [Bool.or_eq_true, decide_eq_true_eq, not_or, Bool.not_eq_true] at hbad
     have hcap : cap ≤ Gen.CC_MAX_ELEMENTS := by
       apply Decidable.byContradiction
@@ -651,6 +672,18 @@ theorem new_spec (cmp : Nat → Nat → Int) (cap : Nat) (exGe : Nat → Bool) (
         · intro j hj; exact absurd hj (Nat.not_lt_zero _)
         · simp [e2.1, e1.1]
         · simp [e2.2.1, e1.2.1]
+
+/-- an accepted capacity has a representable byte size: `capacity * sizeof(void*)` does not wrap -/
+theorem new_ok_bytes (cap : Nat) (exGe : Nat → Bool) (m : Mem) (h : (new cap exGe m).1 = .ok) :
+    0 < cap ∧ cap * ptrSize < 2 ^ 64 := by
+  unfold new at h
+  by_cases hbad : (cap = 0 || exGe (Gen.CC_MAX_ELEMENTS / cap)) = true
+  · simp [hbad] at h
+  · by_cases hbytes : cap > Gen.CC_MAX_ELEMENTS / ptrSize
+    · simp [hbad, hbytes] at h
+    · simp only [Bool.or_eq_true, decide_eq_true_eq, not_or] at hbad
+      simp only [Gen.CC_MAX_ELEMENTS, ptrSize] at hbytes ⊢
+      omega
 
 /-- popping until empty yields every held element exactly once, in non-increasing priority order -/
 theorem drain_spec {cmp : Nat → Nat → Int} (tp : TotalPreorder cmp) :
